@@ -149,9 +149,10 @@ func init() {
 	}
 	c13 := *props["C12"]
 	c13.QuickRuns, c13.ThoroughRuns, c13.RunsPerProc = 6000, 300000, 150
+	c13.QuickWall = 110 * time.Second
 	c13.Rule = "one evaluation = one simulated run: 1-3 DatabaseAPI connections (CreateDatabaseAPI with a recording send function) each sending 1-10 messages (get, query, sub, qsub, create, update, insert, delete, cancel of live/finished/unknown operations, raw malformed messages) with keys in and out of existing databases, valid and invalid query texts, payloads in JSON/CBOR/garbage, against a hashmap or bbolt database holding JSON, struct and RAW records, plus a concurrent privileged writer feeding subscriptions; every request is handled on its own goroutine as in production and the scheduler interleaves them; oracle: per-request reply automaton, reply IDs belong to the connection, terminal replies after quiescence, write->read-back JSON equality plus _meta, process survival; distinct = distinct hash of request/reply counts; non-trivial = at least 2 goroutine switches"
 	c13.MapPkgs = "api,database,database/iterator,database/storage/hashmap,database/storage/bbolt,config,modules"
-	c13.Stub = []string{"no websocket: CreateDatabaseAPI with a recording send function"}
+	c13.Stub = []string{"network: in a third of the runs the connections are gorilla websocket connections over an in-memory link to the package's websocket handler (real send queue, handler and writer workers; the link's blocking is the scheduler's), otherwise CreateDatabaseAPI with a recording send function"}
 	props["C13"] = &c13
 	props["C20"] = &propCfg{
 		Harness: "logsim", Pkgs: "log", QuickRuns: 4000, ThoroughRuns: 150000, RunsPerProc: 100,
